@@ -52,6 +52,10 @@ type RunnerResult struct {
 	ParseErrors map[string]*parser.ParseError
 
 	Vcl *VCL
+
+	// In JSON mode a failed run (e.g. a syntax error) still yields a result to print;
+	// the failure itself is kept here so that the command can exit with a failure status.
+	err error
 }
 
 type StatsResult struct {
@@ -185,6 +189,7 @@ func (r *Runner) Run(rslv resolver.Resolver) (*RunnerResult, error) {
 		LintErrors:  r.lintErrors,
 		ParseErrors: r.parseErrors,
 		Vcl:         vcl,
+		err:         err,
 	}, nil
 }
 
